@@ -16,6 +16,15 @@ Case kinds
         (T, T' library transforms or numeric maps applied through `transform(rdms, fun)`)
         against the model's measure of the *untransformed* vectors (op `c03.compare`), and the
         model's measure of the transformed vectors (sanity check of the theorem instance).
+  sess: a *reuse session*: two RDMs objects (float64 and NaN-free as a rule; sometimes integer
+        dtype or with shared NaN positions) are built once and go through a sequence of steps mixing
+        transforms of the same object (`tf`) and comparisons (`cmp`) of the objects or of earlier
+        transform results, with several methods, routes and argument forms (the object itself or its
+        `get_vectors()` array).  Every step's result is compared with the model's answer for that
+        single step on the PRISTINE values (op `c17.session` runs the model's store semantics
+        `sessRun`: transforms append, comparisons read; `c03.compare` for the measures, of the
+        untransformed vectors where the invariance theorems apply); after every step both source
+        objects must be bit-identical to their pristine snapshot, and at the end every earlier result too.
 """
 import importlib
 import math
@@ -49,6 +58,9 @@ THEOREMS = [P + n for n in (
     'minmax_nan_as_coded', 'geotop_nan_as_coded', 'geodesic_raises_iff', 'geodesic_stack_rows',
     'kendall_strictMono_invariant_both', 'whitened_corr_affine_invariant', 'cosine_not_shift_invariant',
     'corr_not_monotone_invariant', 'rankT_as_coded', 'descriptors_as_coded', 'measure_names_sqrt_rank',
+    # round 4: reuse sessions
+    'session_store_prefix', 'session_sources_unchanged', 'session_step_on_pristine',
+    'session_outputs_pristine', 'session_corr_sqrt_rank',
 )] + ['Rsa.Transform.' + n for n in (
     # bridges between the generated leaves (Rsa.Gen.C17) and the forms the theorems speak about
     'posClip_eq', 'sqrtArg_eq', 'minmaxEntry_eq', 'geotopEntry_eq', 'gtQa_eq', 'gtQb_eq',
@@ -71,7 +83,17 @@ RULE = ('cases come from one PRNG. kind tf: one of the seven transforms on a sta
         '2^20/2^30/2^40, clusters of exact ties next to distinct values with relative gaps 2^-20..2^-39), '
         'always exactly representable doubles sent unchanged to the exact model; the increasing maps '
         'include rescaling by 2^e ~ 10^k (k = -12..12), x + c, cube, sqrt, exp, log and are accepted '
-        'only if they keep every order relation among the entries in double precision.')
+        'only if they keep every order relation among the entries in double precision. kind sess (reuse '
+        'sessions): two RDMs objects (float64 without NaN in ~80 %, else integer dtype or shared NaN '
+        'positions; 1..3 RDMs, n = 3..5) built once go through 3..9 steps drawn from templates '
+        '(compare corr/corr_cov -> transform -> rank measure of the result; transform -> compare -> the '
+        'same transform again; the same comparison twice around other steps) plus random steps: a '
+        'transform of a source object (all seven kinds) or a comparison (all eight measures, '
+        'compare(method) or compare_<measure>, the object or its get_vectors() array) of source objects '
+        'or of earlier transform results whose map the measure is invariant under. Compared per step: '
+        'the full transform result / the similarity matrix against the model of that single step on '
+        'the pristine values; after every step both source objects (vectors bitwise, dtype, measure, '
+        'descriptors) against their snapshot; at the end every earlier result against its snapshot.')
 KINDS = ['rank', 'sqrt', 'positive', 'custom', 'minmax', 'geotop', 'geodesic']
 RANK_METHODS = ['average', 'min', 'max', 'dense', 'ordinal']
 NAN_OK = ('rank', 'sqrt', 'positive')
@@ -97,7 +119,14 @@ BRANCHES = (['t:' + k for k in KINDS] + ['rank:' + m for m in RANK_METHODS] +
              'inv:route:direct', 'inv:alias:tau-b', 'desc:scalar_rdm'] +
             ['scale:tiny', 'scale:huge', 'offset:huge', 'near_tie',
              'inv:scale:tiny', 'inv:scale:huge', 'inv:offset:huge', 'inv:near_tie',
-             'inv:tau-a:scale:tiny', 'inv:tau-a:offset:huge', 'inv:tau-a:near_tie'])
+             'inv:tau-a:scale:tiny', 'inv:tau-a:offset:huge', 'inv:tau-a:near_tie'] +
+            # round 4: reuse sessions
+            ['kind:sess', 'sess:float_nan_free', 'sess:int_dtype', 'sess:nan', 'sess:stack>1',
+             'sess:cmp_then_tf', 'sess:centring_then_tf', 'sess:tf_cmp_tf', 'sess:cmp_on_result',
+             'sess:rank_on_result_after_centring', 'sess:cosine_after_centring', 'sess:repeat_cmp',
+             'sess:arg:array', 'sess:arg:array1d', 'sess:route:direct', 'sess:sigma', 'sess:len>=6',
+             'sess:same_side'] +
+            ['sess:t:' + k for k in KINDS] + ['sess:m:' + m for m in INV_METHODS])
 ASSUMPTIONS = [
     'IEEE evaluation of either side is within the stated tolerance of the real value (inputs are '
     'integers / dyadics times powers of two over ~24 decades of scale, offsets up to 2^40, n <= 6; '
@@ -563,6 +592,8 @@ def generate(rng, tier):
     for _ in range(160 if tier == 'quick' else 2500):
         for method in INV_METHODS:
             yield _inv_case(rng, method, nmax)
+    for k in range(400 if tier == 'quick' else 6000):
+        yield _sess_case(rng, min(nmax, 5), k % 4)
     if tier == 'thorough':
         yield from exhaustive()
 
@@ -591,7 +622,9 @@ def exhaustive():
 
 def search(rng, tier):
     for k in range(100000):
-        if k % 3 == 2:
+        if k % 5 == 4:
+            yield _sess_case(rng, 4 if k < 300 else 5, (k // 5) % 4)
+        elif k % 3 == 2:
             yield _inv_case(rng, INV_METHODS[(k // 3) % len(INV_METHODS)], 4 if k < 300 else 5)
         else:
             yield _tf_case(rng, KINDS[(k - k // 3) % len(KINDS)], 4 if k < 300 else 5)
@@ -659,18 +692,14 @@ def tf_call(case):
     try:
         src = _build(case)
         out = quiet(apply_real, case, src)
-        vec = out.get_vectors()
-        return {'type': type(out).__name__,
-                'vecs': [[_num_out(v) for v in row] for row in np.asarray(vec, dtype=float).tolist()],
-                'n_rdm': int(out.n_rdm), 'n_cond': int(out.n_cond),
-                'measure': out.dissimilarity_measure,
-                'descr': _canon(out.descriptors), 'rdm_descr': _canon(out.rdm_descriptors),
-                'pat_descr': _canon(out.pattern_descriptors)}
+        return _tf_record(out)
     except EXC as exc:
         return {'exc': type(exc).__name__}
 
 
 def run_impl(case):
+    if case['kind'] == 'sess':
+        return sess_call(case)
     if case['kind'] == 'inv':
         return {'sim': inv_call(case)}
     return tf_call(case)
@@ -727,6 +756,8 @@ def _cmp_req(method, n, x, y, sigma):
 
 
 def model_requests(case):
+    if case['kind'] == 'sess':
+        return sess_requests(case)
     if case['kind'] == 'inv':
         x, y = _drop(case['x'], case['nanpos']), _drop(case['y'], case['nanpos'])
         reqs = [_cmp_req(case['method'], case['n'], x, y, case['sigma'])]
@@ -743,16 +774,7 @@ def model_requests(case):
         req['x'] = [[fbits(_fl(v)) if v is not None else None for v in row] for row in case['x']]
     else:
         req['x'] = [[rat(unrat(v)) if v is not None else None for v in row] for row in case['x']]
-    if t == 'rank':
-        req['method'] = case['method']
-    if t == 'geotop':
-        req['low'], req['up'] = rat(F(case['low'])), rat(F(case['up']))
-    if t == 'custom':
-        fn = dict(case['fn'])
-        for k in ('a', 'b'):
-            if k in fn:
-                fn[k] = rat(unrat(fn[k]))
-        req['fn'] = fn
+    req.update(_tf_params(case))
     return [req]
 
 
@@ -773,12 +795,17 @@ def _decode_sim(case, ans):
 
 
 def model_result(case, answers):
+    if case['kind'] == 'sess':
+        return sess_model(case, answers)
     if case['kind'] == 'inv':
         out = {'sim': _decode_sim(case, answers[0])}
         if len(answers) > 1:
             out['sim_mapped'] = _decode_sim(case, answers[1])
         return out
-    a = answers[0]
+    return _tf_model(case, answers[0])
+
+
+def _tf_model(case, a):
     if isinstance(a, dict) and 'model_error' in a:
         return a
     if a.get('raise'):
@@ -890,6 +917,8 @@ def _vec_diff(case, impl, model):
 def compare(case, impl, model):
     if isinstance(model, dict) and 'model_error' in model:
         return f'model error {model}'
+    if case['kind'] == 'sess':
+        return sess_compare(case, impl, model)
     if case['kind'] == 'inv':
         rtol, atol = inv_tolerance(case)
         und = case['method'] in ('cosine_cov', 'corr_cov')
@@ -926,6 +955,598 @@ def compare(case, impl, model):
     return None
 
 
+# ------------------------------------------------------------------ reuse sessions (kind sess)
+
+SESS_TF = ['sqrt', 'sqrt', 'sqrt', 'positive', 'positive', 'rank', 'rank', 'minmax', 'custom',
+           'geotop', 'geodesic']
+CENTRING = ('corr', 'corr_cov')
+NO_COV = ('spearman', 'rho-a', 'tau-a', 'kendall', 'cosine', 'corr')
+
+
+def step_map(step):
+    """a transform step as a map dict of the `inv` kind (None: not a map of the single values)"""
+    t = step['t']
+    if t in ('sqrt', 'positive', 'minmax'):
+        return {'name': t + '_transform'}
+    if t == 'rank':
+        return {'name': 'rank_transform', 'method': step['method']}
+    if t == 'custom' and step['fn']['name'] in ('affine', 'cube'):
+        return dict(step['fn'])
+    return None
+
+
+def sess_slots(steps):
+    """store index -> (source object, producing step or None): the two sources, then one slot per
+    transform step in order (`sessRun` appends)"""
+    slots = [(0, None), (1, None)]
+    for k, st in enumerate(steps):
+        if st['op'] == 'tf':
+            slots.append((st['src'], k))
+    return slots
+
+
+def sess_stack(case, src):
+    """the pristine values of a source object, NaN positions dropped"""
+    return _drop(case['objs'][src]['x'], case['nanpos'])
+
+
+def admissible(method, mp, stack, has_nan):
+    """is `method` invariant under the map by theory, and is the map order-exact (rank measures) on
+    these entries in doubles?"""
+    if mp is None:
+        return False
+    name = mp['name']
+    if name == 'affine' and unrat(mp['a']) <= 0:
+        return False
+    if name == 'minmax_transform' and (has_nan or any(_is_const(r) for r in stack)):
+        return False
+    if method in RANK_BASED:
+        if name == 'rank_transform' and mp['method'] == 'ordinal' and \
+                any(len({unrat(v) for v in row}) < len(row) for row in stack):
+            return False
+        return order_embedding(mp, stack)
+    if name == 'affine':
+        return method in CENTRING or unrat(mp['b']) == 0
+    if name == 'minmax_transform':
+        return method in CENTRING
+    return False
+
+
+def sess_judged(case, step):
+    """a comparison step is judged when each argument is a source object or the result of a transform
+    the measure is invariant under"""
+    slots = sess_slots(case['steps'])
+    for ref in (step['a'], step['b']):
+        if not 0 <= ref < len(slots):
+            return False
+        src, k = slots[ref]
+        if k is not None and not admissible(step['method'], step_map(case['steps'][k]),
+                                            sess_stack(case, src), bool(case['nanpos'])):
+            return False
+    return True
+
+
+def _sess_tf_case(case, step):
+    """the transform step as a case of kind tf on the pristine source"""
+    pc = dict(case['objs'][step['src']], kind='tf', t=step['t'])
+    for key in ('method', 'fn', 'low', 'up'):
+        if key in step:
+            pc[key] = step[key]
+    return pc
+
+
+def _sess_inv_case(case, step):
+    """the comparison step as a case of kind inv on the pristine sources"""
+    slots = sess_slots(case['steps'])
+    (sa, ka), (sb, kb) = slots[step['a']], slots[step['b']]
+    return {'kind': 'inv', 'method': step['method'], 'n': case['n'],
+            'x': case['objs'][sa]['x'], 'y': case['objs'][sb]['x'],
+            'fx': None if ka is None else step_map(case['steps'][ka]),
+            'fy': None if kb is None else step_map(case['steps'][kb]),
+            'sigma': step.get('sigma'), 'nanpos': case['nanpos'],
+            'form_x': step.get('form_a', 'rdms'), 'form_y': step.get('form_b', 'rdms'),
+            'route': step.get('route', 'compare'), 'method_name': step.get('method_name', step['method'])}
+
+
+def _sess_tf_step(rng, src, wide, has_nan, t=None):
+    t = t or rng.choice([k for k in SESS_TF if not has_nan or k in NAN_OK])
+    st = {'op': 'tf', 'src': src, 't': t}
+    if t == 'rank':
+        st['method'] = rng.choice(RANK_METHODS)
+    if t == 'geotop':
+        st['low'], st['up'] = rng.choice([0.0, 0.1, 0.25, 0.3]), rng.choice([1.0, 0.9, 0.75, 0.7])
+    if t == 'custom':
+        if wide:    # only exact rescalings at extreme scales (the custom result is compared exactly)
+            fn = {'name': 'affine', 'a': rat(F(2) ** pow10_exp(rng.choice([-3, -2, 2, 3]))), 'b': 0}
+        else:
+            name = rng.choice(['affine', 'affine', 'scale', 'cube', 'cumsum'])
+            if name == 'affine':
+                fn = {'name': 'affine', 'a': _q(rng, 1, 12, 4), 'b': _q(rng, -8, 8, 4)}
+            elif name == 'scale':
+                fn = {'name': 'affine', 'a': _q(rng, 1, 12, 4), 'b': 0}
+            else:
+                fn = {'name': name}
+        st['fn'] = fn
+    return st
+
+
+def _sess_cmp_step(rng, case, method=None, sides=None, prefer_result=False, plain=False):
+    has_nan = bool(case['nanpos'])
+    method = method or rng.choice(NO_COV if has_nan else INV_METHODS)
+    slots = sess_slots(case['steps'])
+    if sides is None:
+        u = rng.random()
+        sides = (0, 1) if u < 0.75 else (1, 0) if u < 0.87 else rng.choice([(0, 0), (1, 1)])
+
+    def pick(side):
+        cand = [i for i, (src, k) in enumerate(slots) if src == side and
+                (k is None or admissible(method, step_map(case['steps'][k]), sess_stack(case, src), has_nan))]
+        res = [i for i in cand if i >= 2]
+        if res and (prefer_result or rng.random() < 0.5):
+            return rng.choice(res)
+        return side
+    a, b = pick(sides[0]), pick(sides[1])
+    st = {'op': 'cmp', 'a': a, 'b': b, 'method': method}
+
+    def form(ref):
+        if plain:
+            return 'rdms'
+        n_rdm = len(case['objs'][slots[ref][0]]['x'])
+        return rng.choice(['rdms', 'rdms', 'rdms', 'array'] + (['array1d'] if n_rdm == 1 else []))
+    st['form_a'], st['form_b'] = form(a), form(b)
+    st['route'] = 'compare' if plain else rng.choice(['compare', 'compare', 'direct'])
+    st['sigma'] = None
+    if method in ('cosine_cov', 'corr_cov') and rng.random() < 0.4:
+        st['sigma'] = {'vec': [rng.choice(['1/2', 1, '3/2', 2, 3]) for _ in range(case['n'])]}
+    st['method_name'] = 'tau-b' if method == 'kendall' and rng.random() < 0.3 else method
+    return st
+
+
+def _sess_case(rng, nmax, template):
+    n = rng.randint(3, nmax)
+    m = n * (n - 1) // 2
+    flavour = rng.choice(['float'] * 8 + ['int', 'nan'])
+    if flavour == 'nan' and m < 6:
+        flavour = 'float'
+    wide = flavour == 'float' and rng.random() < 0.2
+    nonneg = template == 0 or rng.random() < 0.5
+    sizes = (rng.choice([1, 2, 2, 3]), rng.choice([1, 1, 2]))
+    stacks = []
+    for n_rdm in sizes:
+        if wide:
+            par = _wide_params(rng, rng.choice(['tiny', 'huge']))
+            if nonneg:
+                par['lo'] = rng.choice([0, 1])
+            style = 'tiny' if par['e'] < 0 else 'huge'
+            draw = lambda: _wide_vector(rng, m, style, par)   # noqa: E731
+        else:
+            if flavour == 'int':
+                style = rng.choice(['ties', 'nonneg_distinct'] if nonneg else ['ties', 'neg', 'distinct'])
+            else:
+                style = rng.choice(['ties', 'unit', 'nonneg_distinct', 'nonneg_distinct'] if nonneg else
+                                   ['neg', 'distinct', 'quarters', 'nonneg_distinct'])
+            draw = lambda: _vector(rng, m, style)             # noqa: E731
+        rows = []
+        for _ in range(n_rdm):
+            row = draw()
+            for _t in range(20):
+                if len({unrat(v) for v in row}) >= 3:
+                    break
+                row = draw()
+            else:
+                row = _vector(rng, m, 'nonneg_distinct')
+            rows.append(row)
+        stacks.append(rows)
+    nanpos = None
+    if flavour == 'nan':
+        nanpos = sorted(rng.sample(range(m), rng.randint(1, m - 4)))
+        stacks = [_with_nan(st, nanpos) for st in stacks]
+        # the remaining entries must not be constant
+        for st in stacks:
+            for i, row in enumerate(st):
+                if _is_const(row):
+                    st[i] = _with_nan([_vector(rng, m, 'nonneg_distinct')], nanpos)[0]
+    objs = []
+    for n_rdm, stack in zip(sizes, stacks):
+        descr, rdm_descr, pat_descr = _descriptors(rng, n_rdm, n)
+        objs.append({'x': stack, 'n': n, 'dtype': 'int' if flavour == 'int' else 'float',
+                     'measure': _measure(rng), 'descr': descr, 'rdm_descr': rdm_descr,
+                     'pat_descr': pat_descr, 'desc_style': rng.choice(['list', 'array'])})
+    case = {'kind': 'sess', 'n': n, 'objs': objs, 'nanpos': nanpos, 'steps': [], 'template': template}
+    steps = case['steps']
+    has_nan = nanpos is not None
+    add_tf = lambda src, t=None: steps.append(_sess_tf_step(rng, src, wide, has_nan, t))     # noqa: E731
+    add_cmp = lambda **kw: steps.append(_sess_cmp_step(rng, case, **kw))                    # noqa: E731
+    rank_m = lambda: rng.choice(['spearman', 'rho-a', 'tau-a', 'kendall'])                  # noqa: E731
+    if template == 0:
+        # a centring comparison, then a transform of the same object, then a rank measure of the result
+        add_cmp(method='corr' if has_nan else rng.choice(CENTRING), sides=(0, 1), plain=rng.random() < 0.7)
+        add_tf(0, rng.choice(['sqrt', 'sqrt', 'positive', 'rank']))
+        if rng.random() < 0.5:
+            add_tf(1, rng.choice(['sqrt', 'positive']))
+        add_cmp(method=rank_m(), sides=(0, 1), prefer_result=True)
+        add_cmp(method='cosine', sides=(0, 1), plain=True)
+    elif template == 1:
+        # transform -> compare -> the same transform again -> the same comparison again
+        add_tf(0)
+        add_cmp(sides=(0, 1))
+        steps.append(dict(steps[0]))
+        steps.append(dict(steps[1]))
+    elif template == 2:
+        # a comparison, a centring comparison, a transform of the partner, the first comparison again
+        add_cmp(sides=(0, 1))
+        add_cmp(method='corr' if has_nan else rng.choice(CENTRING), sides=rng.choice([(0, 1), (1, 0)]))
+        add_tf(1)
+        steps.append(dict(steps[0]))
+    for _ in range(rng.randint(3, 7) if template == 3 else rng.randint(0, 3)):
+        if rng.random() < 0.5:
+            add_tf(rng.choice([0, 0, 1]))
+        else:
+            add_cmp()
+    return case
+
+
+def _tf_record(out):
+    vec = out.get_vectors()
+    return {'type': type(out).__name__,
+            'vecs': [[_num_out(v) for v in row] for row in np.asarray(vec, dtype=float).tolist()],
+            'n_rdm': int(out.n_rdm), 'n_cond': int(out.n_cond),
+            'measure': out.dissimilarity_measure,
+            'descr': _canon(out.descriptors), 'rdm_descr': _canon(out.rdm_descriptors),
+            'pat_descr': _canon(out.pattern_descriptors)}
+
+
+def _snapshot(r):
+    v = r.dissimilarities
+    return {'vec': np.array(v, copy=True), 'dtype': str(v.dtype), 'measure': r.dissimilarity_measure,
+            'descr': _canon(r.descriptors), 'rdm_descr': _canon(r.rdm_descriptors),
+            'pat_descr': _canon(r.pattern_descriptors)}
+
+
+def _snap_diff(r, snap):
+    """None, or what of the object differs from its snapshot"""
+    v = np.asarray(r.dissimilarities)
+    if str(v.dtype) != snap['dtype'] or v.shape != snap['vec'].shape:
+        return {'what': 'dtype/shape', 'was': [snap['dtype'], list(snap['vec'].shape)],
+                'now': [str(v.dtype), list(v.shape)]}
+    if not np.array_equal(v, snap['vec'], equal_nan=True):
+        for i in range(v.shape[0]):
+            for j in range(v.shape[1]):
+                a, b = float(snap['vec'][i, j]), float(v[i, j])
+                if not (a == b or (math.isnan(a) and math.isnan(b))):
+                    return {'what': 'dissimilarities', 'entry': [i, j], 'was': _num_out(a), 'now': _num_out(b)}
+    if r.dissimilarity_measure != snap['measure']:
+        return {'what': 'measure', 'was': snap['measure'], 'now': r.dissimilarity_measure}
+    for key, cur in (('descr', r.descriptors), ('rdm_descr', r.rdm_descriptors),
+                     ('pat_descr', r.pattern_descriptors)):
+        if _canon(cur) != snap[key]:
+            return {'what': key, 'was': snap[key], 'now': _canon(cur)}
+    return None
+
+
+def sess_call(case):
+    """the session on the real code: the two objects are built ONCE; every step works on them (or on
+    earlier results); after each step the sources are compared with their pristine snapshot"""
+    try:
+        store = [_build(o) for o in case['objs']]
+    except EXC as exc:
+        return {'exc': type(exc).__name__}
+    pristine = [_snapshot(r) for r in store]
+    made = {}
+    out_steps = []
+    for k, st in enumerate(case['steps']):
+        try:
+            if st['op'] == 'tf':
+                out = quiet(apply_real, st, store[st['src']])
+                store.append(out)
+                made[len(store) - 1] = _snapshot(out)
+                res = _tf_record(out)
+            else:
+                def arg(ref, form):
+                    r = store[ref]
+                    if form == 'array':
+                        return r.get_vectors()          # the object's own array, as a caller has it
+                    if form == 'array1d':
+                        return r.get_vectors()[0]
+                    return r
+                ra, rb = arg(st['a'], st.get('form_a', 'rdms')), arg(st['b'], st.get('form_b', 'rdms'))
+                if st.get('route') == 'direct':
+                    fun = getattr(_cmp, DIRECT[st['method']])
+                    if st['method'] in ('cosine_cov', 'corr_cov'):
+                        sim = quiet(fun, ra, rb, sigma_k=_sigma_np(st.get('sigma')))
+                    else:
+                        sim = quiet(fun, ra, rb)
+                else:
+                    sim = quiet(_cmp.compare, ra, rb, method=st.get('method_name', st['method']),
+                                sigma_k=_sigma_np(st.get('sigma')))
+                res = {'sim': _mat_out(sim)}
+        except EXC as exc:
+            if st['op'] == 'tf':
+                store.append(None)
+                res = {'exc': type(exc).__name__}
+            else:
+                res = {'sim': {'exc': type(exc).__name__}}
+        changed = None
+        for i in (0, 1):
+            d = _snap_diff(store[i], pristine[i])
+            if d:
+                changed = dict(d, obj=i)
+                break
+        res['src_changed'] = changed
+        out_steps.append(res)
+    later = []
+    for idx, snap in made.items():
+        d = _snap_diff(store[idx], snap)
+        if d:
+            later.append(dict(d, result=idx))
+    return {'steps': out_steps, 'results_changed': later}
+
+
+def _tf_params(pc):
+    """the parameters of a transform as the driver reads them"""
+    out = {}
+    t = pc['t']
+    if t == 'rank':
+        out['method'] = pc['method']
+    if t == 'geotop':
+        out['low'], out['up'] = rat(F(pc['low'])), rat(F(pc['up']))
+    if t == 'custom':
+        fn = dict(pc['fn'])
+        for k in ('a', 'b'):
+            if k in fn:
+                fn[k] = rat(unrat(fn[k]))
+        out['fn'] = fn
+    return out
+
+
+def sess_requests(case):
+    objs = []
+    for o in case['objs']:
+        descr, rd, pd = source_descriptors(o)
+        objs.append({'x': [[rat(unrat(v)) if v is not None else None for v in row] for row in o['x']],
+                     'xf': [[fbits(_fl(v)) if v is not None else None for v in row] for row in o['x']],
+                     'measure': o.get('measure'), 'descr': descr, 'rdm_descr': rd, 'pat_descr': pd,
+                     'n': case['n']})
+    steps = []
+    reqs = []
+    for st in case['steps']:
+        if st['op'] == 'tf':
+            steps.append(dict({'op': 'tf', 'src': st['src'], 'kind': st['t']}, **_tf_params(st)))
+        else:
+            steps.append({'op': 'cmp', 'a': st['a'], 'b': st['b']})
+            pc = _sess_inv_case(case, st)
+            reqs.append(_cmp_req(st['method'], case['n'], _drop(pc['x'], case['nanpos']),
+                                 _drop(pc['y'], case['nanpos']), st.get('sigma')))
+    return [{'op': 'c17.session', 'objs': objs, 'steps': steps}] + reqs
+
+
+def sess_model(case, answers):
+    sess = answers[0]
+    if isinstance(sess, dict) and 'model_error' in sess:
+        return sess
+    reqs = sess_requests(case)
+    objs = reqs[0]['objs']
+    if sess['store'] != [o['x'] for o in objs]:
+        return {'model_error': 'the model session changed a source object'}
+    slots = sess_slots(case['steps'])
+    out, ci = [], 0
+    for k, st in enumerate(case['steps']):
+        a = sess['outs'][k]
+        if st['op'] == 'tf':
+            if isinstance(a, dict) and 'model_error' in a:
+                return a
+            out.append(_tf_model(_sess_tf_case(case, st), a))
+        else:
+            # the vectors the model session hands to this comparison: those of the pristine sources /
+            # of the stored transform results
+            want = []
+            for ref in (st['a'], st['b']):
+                src, kk = slots[ref]
+                want.append(objs[src]['x'] if kk is None else sess['outs'][kk].get('vecs'))
+            if not isinstance(a, dict) or [a.get('a'), a.get('b')] != want:
+                return {'model_error': f'session step {k}: comparison was not handed the stored vectors'}
+            pc = _sess_inv_case(case, st)
+            ci += 1
+            out.append({'sim': _decode_sim(pc, answers[ci])})
+    return {'steps': out}
+
+
+def _step_label(st):
+    if st['op'] == 'tf':
+        return f"{st['t']}_transform of object {st['src']}"
+    return f"compare {st['method']} of objects {st['a']}, {st['b']}"
+
+
+def sess_compare(case, impl, model):
+    if 'exc' in impl:
+        return f"building the RDMs raised {impl['exc']}"
+    for k, st in enumerate(case['steps']):
+        ir, mr = impl['steps'][k], model['steps'][k]
+        if st['op'] == 'tf':
+            d = compare(_sess_tf_case(case, st), ir, mr)
+        elif not sess_judged(case, st):
+            d = None
+        else:
+            pc = _sess_inv_case(case, st)
+            rtol, atol = inv_tolerance(pc)
+            d = _diff_sim(ir['sim'], mr['sim'], rtol, atol, st['method'] in ('cosine_cov', 'corr_cov'))
+        if d:
+            return f'session step {k} ({_step_label(st)}), judged on the pristine values: {d}'
+        if ir.get('src_changed'):
+            return f"session step {k} ({_step_label(st)}) changed source object: {ir['src_changed']}"
+    if impl['results_changed']:
+        return f"an earlier transform result was changed by a later step: {impl['results_changed'][0]}"
+    return None
+
+
+def sess_features(case, impl):
+    steps = case['steps']
+    slots = sess_slots(steps)
+    flav = 'nan' if case['nanpos'] else ('int_dtype' if case['objs'][0]['dtype'] == 'int' else 'float_nan_free')
+    br = ['kind:sess', 'sess:' + flav]
+    if any(len(o['x']) > 1 for o in case['objs']):
+        br.append('sess:stack>1')
+    if len(steps) >= 6:
+        br.append('sess:len>=6')
+    touched = {0: [], 1: []}      # per source: the history of steps that saw it
+    seen_cmp = []
+    for k, st in enumerate(steps):
+        if st['op'] == 'tf':
+            br.append('sess:t:' + st['t'])
+            hist = touched[st['src']]
+            if any(h[0] == 'cmp' for h in hist):
+                br.append('sess:cmp_then_tf')
+            if any(h[0] == 'cmp' and h[1] in CENTRING for h in hist):
+                br.append('sess:centring_then_tf')
+            for i, h in enumerate(hist):
+                if h[0] == 'tf' and any(g[0] == 'cmp' for g in hist[i + 1:]):
+                    br.append('sess:tf_cmp_tf')
+            hist.append(('tf', st['t']))
+        else:
+            br.append('sess:m:' + st['method'])
+            srcs = [slots[r][0] for r in (st['a'], st['b'])]
+            judged = sess_judged(case, st)
+            if judged and (st['a'] >= 2 or st['b'] >= 2):
+                br.append('sess:cmp_on_result')
+                # a rank measure of a transform result made after a centring comparison saw its source
+                for r in (st['a'], st['b']):
+                    src, kk = slots[r]
+                    if kk is not None and st['method'] in RANK_BASED and \
+                            any(s2['op'] == 'cmp' and s2['method'] in CENTRING and
+                                src in [slots[q][0] for q in (s2['a'], s2['b']) if q < 2]
+                                for s2 in steps[:kk]):
+                        br.append('sess:rank_on_result_after_centring')
+            if st['method'] in ('cosine', 'cosine_cov') and st['a'] < 2 and st['b'] < 2 and \
+                    any(h[0] == 'cmp' and h[1] in CENTRING for s_ in set(srcs) for h in touched[s_]):
+                br.append('sess:cosine_after_centring')
+            if srcs[0] == srcs[1]:
+                br.append('sess:same_side')
+            for f in (st.get('form_a', 'rdms'), st.get('form_b', 'rdms')):
+                if f != 'rdms':
+                    br.append('sess:arg:' + f)
+            if st.get('route') == 'direct':
+                br.append('sess:route:direct')
+            if st.get('sigma') is not None:
+                br.append('sess:sigma')
+            sig = json_key(st)
+            if sig in seen_cmp:
+                br.append('sess:repeat_cmp')
+            seen_cmp.append(sig)
+            for s_ in set(srcs):
+                # only a comparison that was handed the source object itself "saw" it
+                if any(r < 2 and slots[r][0] == s_ for r in (st['a'], st['b'])):
+                    touched[s_].append(('cmp', st['method']))
+    return {'kind': 'sess', 'n': case['n'], 'flavour': flav, 'n_steps': len(steps),
+            'template': case.get('template'), 'branches': sorted(set(br))}
+
+
+def json_key(obj):
+    import json
+    return json.dumps(obj, sort_keys=True, default=str)
+
+
+_FRESH_BUDGET = [8]      # fresh-interpreter confirmations per run (each costs an import of the library)
+
+
+def _fresh_fails(case, claim):
+    """does the oracle fail with this claim on the case in a fresh interpreter (no library state left
+    behind by earlier cases)?  None when the budget of the run is used up (no confirmation)"""
+    import json
+    if _FRESH_BUDGET[0] <= 0:
+        return None
+    _FRESH_BUDGET[0] -= 1
+    import os
+    import subprocess
+    import sys
+    code = ('import sys, json\nfrom engines import C17 as e\nc = json.load(sys.stdin)\no = e.oracle(c)\n'
+            'print("CLAIM=" + json.dumps(o["features"].get("claim") if o else None))')
+    env = dict(os.environ, PYTHONPATH=os.pathsep.join(p_ for p_ in sys.path if p_))
+    try:
+        p_ = subprocess.run([sys.executable, '-c', code], input=json.dumps(case, default=str).encode(),
+                            stdout=subprocess.PIPE, stderr=subprocess.DEVNULL, env=env, timeout=120)
+        for line in p_.stdout.decode(errors='replace').splitlines():
+            if line.startswith('CLAIM='):
+                return json.loads(line[6:]) == claim
+    except Exception:      # noqa: BLE001
+        pass
+    return False
+
+
+def sess_shrink(case, still_fails):  # noqa: C901
+    """fewer steps (dropping a transform step renumbers the later references), then fewer RDMs; the
+    reduced session must fail with the same claim (a wrong transform value stays a wrong transform
+    value and is not reduced to the bare 'source object changed')"""
+    best = case
+    first = oracle(case)
+    claim = first['features'].get('claim') if isinstance(first, dict) and 'features' in first else None
+    any_fail = still_fails
+
+    def still_fails(c):     # noqa: F811
+        if claim is None:
+            return any_fail(c)
+        o = oracle(c)
+        return bool(o) and isinstance(o, dict) and o.get('features', {}).get('claim') == claim
+
+    def without(c, k):
+        steps = c['steps']
+        st = steps[k]
+        new = [dict(s_) for i, s_ in enumerate(steps) if i != k]
+        if st['op'] == 'tf':
+            idx = 2 + sum(1 for s_ in steps[:k] if s_['op'] == 'tf')
+            for s_ in new:
+                if s_['op'] == 'cmp':
+                    if idx in (s_['a'], s_['b']):
+                        return None
+                    s_['a'] -= s_['a'] > idx
+                    s_['b'] -= s_['b'] > idx
+        return dict(c, steps=new)
+    def drop_steps(c0, fails, budget=10 ** 6):
+        cur, progress = c0, True
+        while progress and budget > 0:
+            progress = False
+            for k in reversed(range(len(cur['steps']))):
+                c = without(cur, k)
+                if c is None or not c['steps']:
+                    continue
+                budget -= 1
+                if fails(c):
+                    cur, progress = c, True
+                    break
+                if budget <= 0:
+                    break
+        return cur
+    best = drop_steps(best, still_fails)
+    if claim is not None and len(best['steps']) < len(case['steps']) and _fresh_fails(best, claim) is False:
+        # the reduced session fails only with what earlier cases left behind in the library (state
+        # that outlives a call): reduce again, judging every candidate in a fresh interpreter
+        if _fresh_fails(case, claim) is True:
+            return drop_steps(case, lambda c: _fresh_fails(c, claim) is True, budget=10)
+        return dict(best, needs_process_history=True)
+    for i in (0, 1):
+        o = best['objs'][i]
+        if len(o['x']) > 1 and not any(s_['op'] == 'cmp' and 'array1d' in (s_.get('form_a'), s_.get('form_b'))
+                                       for s_ in best['steps']):
+            for r, row in enumerate(o['x']):
+                o2 = dict(o, x=[row], rdm_descr={kk: ([vv[r]] if isinstance(vv, list) else vv)
+                                                 for kk, vv in o.get('rdm_descr', {}).items()})
+                objs = list(best['objs'])
+                objs[i] = o2
+                c = dict(best, objs=objs)
+                if still_fails(c):
+                    best = c
+                    break
+    for i in (0, 1):
+        for key, val in (('descr', {}), ('rdm_descr', {}), ('pat_descr', {}), ('measure', None),
+                         ('desc_style', 'list')):
+            if best['objs'][i].get(key) != val:
+                objs = list(best['objs'])
+                objs[i] = dict(objs[i], **{key: val})
+                c = dict(best, objs=objs)
+                if still_fails(c):
+                    best = c
+    return best
+
+
 # ------------------------------------------------------------------ features
 
 def _vals(stack):
@@ -947,6 +1568,8 @@ def _measure_tag(m):
 
 
 def features(case, impl):
+    if case['kind'] == 'sess':
+        return sess_features(case, impl)
     if case['kind'] == 'inv':
         br = ['kind:inv', 'inv:' + case['method'], 'map:' + case['fx']['name']]
         if case['fy'] is not None:
@@ -1017,6 +1640,9 @@ def features(case, impl):
 
 
 def nontrivial_key(case, impl):
+    if case['kind'] == 'sess':
+        rows = [r for o in case['objs'] for r in o['x']]
+        return case if case['steps'] and not all(_is_const(r) for r in rows) else None
     rows = case['x'] + (case['y'] if case['kind'] == 'inv' else [])
     if all(_is_const(r) for r in rows):
         return None
@@ -1026,6 +1652,9 @@ def nontrivial_key(case, impl):
 # ------------------------------------------------------------------ oracle, shrink
 
 def oracle(case):
+    if case['kind'] == 'sess':
+        import sys
+        return orc.check_sess(case, sys.modules[__name__])
     if case['kind'] == 'inv':
         return orc.check_inv(case, inv_call, inv_tolerance(case))
     return orc.check_tf(case, tf_call, source_descriptors(case), custom_fun)
@@ -1033,6 +1662,8 @@ def oracle(case):
 
 def shrink(case, still_fails):
     best = case
+    if case['kind'] == 'sess':
+        return sess_shrink(case, still_fails)
     if case['kind'] == 'inv':
         if len(best['x']) > 1 or len(best['y']) > 1:
             done = False
